@@ -144,11 +144,13 @@ class SpawnBase(object):
     # In bytes mode, regex patterns should also be of bytes type
     def _coerce_expect_re(self, r):
         p = r.pattern
+        # Keep the flags the pattern was compiled with (re.UNICODE is implied
+        # for str patterns and not allowed for bytes; re.LOCALE the reverse).
         if self.encoding is None and not isinstance(p, bytes):
-            return re.compile(p.encode('utf-8'))
+            return re.compile(p.encode('utf-8'), r.flags & ~re.UNICODE)
         # And vice-versa
         elif self.encoding is not None and isinstance(p, bytes):
-            return re.compile(p.decode('utf-8'))
+            return re.compile(p.decode('utf-8'), r.flags & ~re.LOCALE)
         return r
 
     def _coerce_send_string(self, s):
